@@ -19,7 +19,7 @@ Inductive op :=
 | OpCall (t : nat) (o : opts) (sc : script)     (* HostClient.Do for request id t, until it returns *)
 | OpSrvMore (t : nat) (n : nat) (cl : bool)     (* the server sends n more symbols on the connection held by t (then closes) *)
 | OpStreamRead (t : nat) (n : nat)              (* the caller reads up to n units from resp.BodyStream() *)
-| OpCloseStream (t : nat)                       (* resp.CloseBodyStream() *)
+| OpCloseStream (t : nat) (werr : bool)         (* resp.CloseBodyStream() / resp.closeBodyStream(err) *)
 | OpCleanIdle.                                  (* HostClient.CloseIdleConnections() *)
 
 (* one recorded call of a concurrent history *)
@@ -170,8 +170,8 @@ Definition do_op (maxconns : nat) (reset lifo : bool) (d : dst) (o : op) : dst *
       | TRun _ _ _ => let '(s1, ob) := stream_loop n s t [] in (mkD s1 (d_thr d) (d_rd d), ob)
       | _ => (d, [OUTOFMODEL])
       end
-  | OpCloseStream t =>
-      match step s (LCloseStream t false) with
+  | OpCloseStream t werr =>
+      match step s (LCloseStream t werr) with
       | Some s1 => (mkD s1 (d_thr d) (d_rd d), pool_obs s1 (d_thr d))
       | None => (d, [OUTOFMODEL])
       end
